@@ -1086,6 +1086,15 @@ func (h *harness) runScenario(in io.Reader, out io.Writer) error {
 		var err error
 		if line == "settle" {
 			ev, err = h.settle()
+		} else if strings.HasPrefix(line, "crashcheck") {
+			k := 0
+			if f := strings.Fields(line); len(f) > 1 {
+				k, _ = strconv.Atoi(f[1])
+			}
+			ev, err = h.crashcheck(k)
+			if ev != nil {
+				ev["noop"] = true // the live service is untouched: the model sees nothing
+			}
 		} else {
 			ev, err = h.step(line)
 		}
@@ -1278,6 +1287,8 @@ func (g *genWorld) genDef(self string, wild bool) (string, *genTag) {
 	return strings.Join(atoms, " "), gt
 }
 
+var genCrash = false
+
 func gen(seed uint64, n int, w io.Writer) {
 	r := lib.NewRNG(seed)
 	g := &genWorld{r: r, tags: map[string]*genTag{}, flows: map[int]bool{}}
@@ -1350,6 +1361,9 @@ func gen(seed uint64, n int, w io.Writer) {
 		return r.Intn(len(g.flows))
 	}
 	for i := 0; i < n; i++ {
+		if genCrash && r.Chance(1, 5) {
+			fmt.Fprintf(w, "crashcheck %d\n", lib.Pick(r, []int{0, 0, 0, r.Intn(24) + 1, r.Intn(24) + 1}))
+		}
 		switch x := r.Intn(40); {
 		case x < 5:
 			mkpcap()
@@ -1455,6 +1469,9 @@ func gen(seed uint64, n int, w io.Writer) {
 		}
 	}
 	fmt.Fprintf(w, "settle\n")
+	if genCrash {
+		fmt.Fprintf(w, "crashcheck 0\n")
+	}
 }
 
 func main() {
@@ -1472,9 +1489,11 @@ func main() {
 	oracle := fs.String("oracle", "", "oracle complaint file")
 	keep := fs.String("dir", "", "data directory (default: temp dir removed at exit)")
 	verbose := fs.Bool("v", false, "keep the service's log output")
+	crash := fs.Bool("crash", false, "gen: insert crashcheck ops")
 	fs.Parse(os.Args[2:])
 	switch os.Args[1] {
 	case "gen":
+		genCrash = *crash
 		w := bufio.NewWriter(os.Stdout)
 		gen(*seed, *n, w)
 		w.Flush()
